@@ -43,7 +43,7 @@ EAGER_OK = False
 BUDGET = {"quick": 110, "thorough": 1500}
 
 TIMELINES = ["cold_refuse", "latency3", "handshake", "handshake_bytes", "slow_handshake",
-             "cmd_pending", "hb_overflow",
+             "cmd_pending", "hb_overflow", "hb_stalled",
              "steady", "backoff",
              "hb_reset", "wfault", "subs", "sock_pending", "sock_backoff", "sock_stalled"]
 
@@ -185,6 +185,24 @@ async def drive(tl, gen, loop, net, log, ctx):
             except Exception:
                 pass
         await asyncio.sleep(35.0)
+    elif tl == "hb_stalled":
+        # the console stops reading shortly before a heartbeat tick: the heartbeat's own send
+        # is held up in drain() when shutdown comes; the console reads again later
+        await asyncio.sleep(298.0)
+        c = net.current()
+        if c:
+            c.transport.stall()
+
+            async def cmd():
+                try:
+                    await w.at.air_conditioners[0].set_power(api.AcPowerControl.TURN_ON)
+                except Exception:  # noqa: BLE001
+                    pass
+            ctx.setdefault("app_tasks", []).append(loop.create_task(cmd()))
+        await asyncio.sleep(6.0)
+        if c:
+            c.transport.unstall()
+        await asyncio.sleep(3.0)
     elif tl == "backoff":
         await asyncio.sleep(1.0)
         net.script += [("refuse", 0.0), ("refuse", 0.0), ("accept", 0.7)]
